@@ -182,7 +182,7 @@ def run_eval(prop, tier):
                 "compared with the same call on a fresh evaluator; bounds: |score| < win_in(MAX_DEPTH) for every evaluation of the listed spaces")
         assumptions = ["the colliding alphabet is found by exhaustive search over pawn structures against this process's random keys",
                        "a fresh PositionScorer is the reference for purity"]
-        guards = [("structures_searched", 1000), ("evaluations", 100000), ("pawn_groups", 500), ("cleared_evaluations", 10000), ("order_pairs", 10000)]
+        guards = [("structures_searched", 1000), ("evaluations", 100000), ("pawn_groups", 500), ("cleared_evaluations", 10000), ("order_pairs", 10000), ("alphabets_with_low32_pair", 1)]
     return driver.finish(prop, tier, MC, merged, t0, rule=rule, assumptions=assumptions, guards=guards, replay_fn=replay_eval,
                          technique="exhaustive enumeration of positions / operation sequences on the real evaluator with a differential oracle")
 
